@@ -24,7 +24,7 @@ def expected_models(b, names):
         nm = names[m['model'] - 1]
         chi = float(frac(m['chi'])) if not m['big'] else m['big'] * 1e30
         out[nm] = {'chi': chi, 'av': float(frac(m['u'])) / 4.0, 'sc': float(frac(m['v'])) / 40.0,
-                   'par': [float(x) for x in m['par']], 'extra': 1000.0 + m['model'], 'zeta': 1000.0 + m['model'], 'alpha': 7.0 * m['model']}
+                   'par': [float(x) for x in m['par']], 'extra': 1000.0 + m['model'], 'zeta': 1000.0 + m['model'], 'alpha': 7.0 * (m['model'] - 1)}
     return out
 
 
@@ -117,7 +117,7 @@ def replay_chunk(items, hdr, root, seed):
                 inp = p
             else:
                 inp = info if form == 'obj' else [info]
-            additional = {} if bi % 2 else {'zeta': {n_: 1000.0 + (i + 1) for i, n_ in enumerate(names)}, 'alpha': {n_: 7.0 * (i + 1) for i, n_ in enumerate(names)}}
+            additional = {} if bi % 2 else {'zeta': {n_: 1000.0 + (i + 1) for i, n_ in enumerate(names)}, 'alpha': {n_: 7.0 * i for i, n_ in enumerate(names)}}       # one model has the value 0 exactly
             desc = {'behaviour': b, 'table_row_order': [names[i] for i in perm], 'parameter_columns': npar, 'form': form, 'selector': csel, 'additional': bool(additional)}
             bad = None
             try:
